@@ -1,6 +1,7 @@
 package props
 
 import (
+	"bytes"
 	"fmt"
 	"strings"
 
@@ -221,14 +222,14 @@ func init() {
 			// message-level observers after fills that ADD or RENAME names (ellipsis expansion, a list
 			// variable filled with an item that has variables of its own), through DataMessage.FillVariables
 			ms := NewTreeScope(atoms, 3, 3, 3)
-			sp = append(sp, h.Space{Name: "messages-after-renaming-fills", Count: ms.Count() * 3,
+			sp = append(sp, h.Space{Name: "messages-after-renaming-fills", Count: ms.Count() * 5,
 				Describe: func(i uint64) interface{} {
-					n := ms.Nth(i / 3)
+					n := ms.Nth(i / 5)
 					nameTemplate(n)
-					return fmt.Sprintf("message fill kind %d on %s", i%3, ref.Print(n))
+					return fmt.Sprintf("message fill kind %d on %s", i%5, ref.Print(n))
 				},
 				Run: func(c *h.Ctx, i uint64) {
-					n := ms.Nth(i / 3)
+					n := ms.Nth(i / 5)
 					if !nameTemplate(n) || n.Complete() {
 						c.Case(0, false, "no-variables")
 						return
@@ -240,7 +241,62 @@ func init() {
 					var want *ref.Node
 					var slots []slot
 					slotsOf(n, &slots)
-					switch i % 3 {
+					scalar := func(sl slot) bool { return sl.kind != ref.VAR && sl.kind != ref.ELLIPSIS && sl.kind != ref.A }
+					switch i % 5 {
+					case 3: // a value variable renamed (a name as fill value) to a fresh name
+						for _, sl := range slots {
+							if scalar(sl) {
+								fill[sl.name] = "fresh_1"
+								want = substitute(n, map[string]fillValue{sl.name: {elem: ref.Elem{Var: "fresh_1"}}})
+								break
+							}
+						}
+						if want == nil {
+							c.Case(0, false, "no-value-variable")
+							return
+						}
+					case 4: // a value variable renamed to a name that is in use elsewhere in the tree: refused, never a second occurrence
+						tried := 0
+						for _, a := range slots {
+							if !scalar(a) {
+								continue
+							}
+							for _, b := range slots {
+								if b.name == a.name || b.kind == ref.ELLIPSIS {
+									continue
+								}
+								tried++
+								var m2 *ast.DataMessage
+								p := catch(func() { m2 = msg.FillVariables(map[string]interface{}{a.name: b.name}) })
+								c.Ops(1)
+								if p != nil {
+									continue
+								}
+								seen := map[string]bool{}
+								for _, v := range m2.Variables() {
+									if seen[v] {
+										c.Fail("duplicate-name-accepted", fmt.Sprintf("%s with FillVariables({%q: %q})", ref.Print(n), a.name, b.name),
+											fmt.Sprintf("accepted; Variables()=%v String()=%q", m2.Variables(), body(m2.String())))
+										c.Case(0, true, "bad")
+										return
+									}
+									seen[v] = true
+								}
+								names, _ := printedFacts(body(m2.String()))
+								seen = map[string]bool{}
+								for _, v := range names {
+									if seen[v] && v != "..." {
+										c.Fail("duplicate-name-accepted", fmt.Sprintf("%s with FillVariables({%q: %q})", ref.Print(n), a.name, b.name),
+											fmt.Sprintf("accepted; printed names %v", names))
+										c.Case(0, true, "bad")
+										return
+									}
+									seen[v] = true
+								}
+							}
+						}
+						c.Case(0, tried > 0, fmt.Sprintf("collisions-tried=%v", tried > 0))
+						return
 					case 0: // every ellipsis filled with 1: repeated variables are renamed
 						ells := ellipsisNames(n)
 						if len(ells) == 0 {
@@ -346,6 +402,72 @@ func init() {
 						return
 					}
 					c.Case(0, true, agree(c, "hostile-name", it, n, 2))
+				}})
+			// "encodes iff no variables" at the length-byte boundaries and at the largest legal item
+			bSizes := []int{0, 1, 255, 256, 65535, 65536, 1<<24 - 2, 1<<24 - 1}
+			bRoutes := []string{"ASCII literal", "ASCII variable filled with the string", "list variable filled with the ASCII item, in a message", "binary item"}
+			sp = append(sp, h.Space{Name: "encodable-at-length-boundaries", Count: product(len(bSizes), len(bRoutes)), ChunkHint: 1,
+				Describe: func(i uint64) interface{} {
+					d := unrank(i, len(bSizes), len(bRoutes))
+					return fmt.Sprintf("%s of %d elements", bRoutes[d[1]], bSizes[d[0]])
+				},
+				Run: func(c *h.Ctx, i uint64) {
+					d := unrank(i, len(bSizes), len(bRoutes))
+					n, route := bSizes[d[0]], d[1]
+					if route == 3 && n > 65536 && tier != "thorough" {
+						c.Case(0, false, "thorough-only")
+						return
+					}
+					desc := fmt.Sprintf("%s of %d elements", bRoutes[route], n)
+					payload := bytes.Repeat([]byte{'a'}, n)
+					code := ref.A
+					var it ast.ItemNode
+					var vars []string
+					var got []byte
+					size := -2
+					pan := catch(func() {
+						switch route {
+						case 0:
+							it = ast.NewASCIINode(string(payload))
+						case 1:
+							it = ast.NewASCIINodeVariable("v", 0, -1).FillVariables(map[string]interface{}{"v": string(payload)})
+						case 2:
+							m := ast.NewDataMessage("m", 1, 1, 0, "H->E", ast.NewListNode("x")).FillVariables(map[string]interface{}{"x": ast.NewASCIINode(string(payload))}).SetSessionIDAndSystemBytes(1, []byte{0, 0, 0, 1})
+							vars, got = m.Variables(), m.ToBytes()
+							return
+						case 3:
+							code = ref.B
+							vs := make([]interface{}, n)
+							for j := range vs {
+								vs[j] = int('a')
+							}
+							it = ast.NewBinaryNode(vs...)
+						}
+						vars, got, size = it.Variables(), it.ToBytes(), it.Size()
+					})
+					c.Ops(3)
+					if pan != nil {
+						c.Fail("legal-item-refused", desc, fmt.Sprint(pan))
+						c.Case(0, true, "bad")
+						return
+					}
+					want := append(ref.ItemHeader(code, n, 0), payload...)
+					if route == 2 {
+						want = append([]byte{0x01, 0x01}, want...)
+						want = hdr(1, 1, want)
+						want[4], want[5], want[13] = 0, 1, 1
+					}
+					switch {
+					case len(vars) != 0:
+						c.Fail("variables-in-a-complete-item", desc, fmt.Sprint(vars))
+					case len(got) == 0:
+						c.Fail("complete-item-does-not-encode", desc, "Variables() is empty but ToBytes() is empty")
+					case !bytes.Equal(got, want):
+						c.Fail("boundary-bytes", desc, fmt.Sprintf("ToBytes() has %d bytes (want %d), first difference at %d", len(got), len(want), firstDiff(got, want)))
+					case route != 2 && size != n:
+						c.Fail("size-differs", desc, fmt.Sprintf("Size()=%d", size))
+					}
+					c.Case(0, true, "checked")
 				}})
 			// items with very many variables (position bookkeeping beyond 255 / 65535)
 			manyN := []int{255, 256, 257, 1000, 65535, 65536, 65537, 70000}
